@@ -114,12 +114,14 @@ def stepSubRecent (s : State) (sid : Nat) (m : Mode) : State × Res := subscribe
 def stepSubAt (s : State) (sid : Nat) (m : Mode) (p : Nat) : State × Res :=
   if p < s.pos then subscribeLk s sid m p else (s, Res.bad)
 
-/-- copy constructor; `Pre`: the source is a live subscriber that is not inside `next()` -/
+/-- copy constructor (`subscribe_lk(h, sub)`, repaired code): the source may be anywhere inside `next()` — a waiting
+source already stands at the position of the next, not yet published value, so the copy starts at most at the last
+published one. `Pre`: the source is a live subscriber. -/
 def stepSubCopy (s : State) (sid : Nat) (h : Nat) : State × Res :=
   match s.regs[h]? with
   | none => (s, Res.bad)
   | some r =>
-    if r.used = true ∧ r.phase = Phase.idle then subscribeLk s sid r.mode r.pos else (s, Res.bad)
+    if r.used = true then subscribeLk s sid r.mode (min r.pos (s.pos - 1)) else (s, Res.bad)
 
 /-- `advance_lk`: is there something to move to (a value, or the end after close)? -/
 def canAdvance (s : State) (r : Reg) : Prop :=
@@ -301,6 +303,14 @@ def stepBlockingResumeAsIs (s : State) (h : Nat) : State × Res :=
       | none => (setReg s h { r with phase := Phase.idle }, Res.value none)
     else (s, Res.bad)
 
+/-- the copy constructor as pinned: the source's raw position, also when the source is waiting at the position of
+the value that is not yet published -/
+def stepSubCopyAsIs (s : State) (sid : Nat) (h : Nat) : State × Res :=
+  match s.regs[h]? with
+  | none => (s, Res.bad)
+  | some r =>
+    if r.used = true then subscribeLk s sid r.mode r.pos else (s, Res.bad)
+
 /-- a `close()` that sets `_closed` only *after* `push_lk` (second region instead of first): the wake-up pass runs
 while the queue still reports open.  Not the code; kept to show (Props/C16) why the order matters. -/
 def stepCloseLateBegin (s : State) : State × Res :=
@@ -314,6 +324,7 @@ inductive OpAsIs where
   | blockingResume (h : Nat)
   | closeLateBegin
   | closeLateEnd
+  | subCopyAsIs (sid : Nat) (h : Nat)
   deriving Repr, DecidableEq
 
 def stepAsIs (s : State) (o : OpAsIs) : State × Res :=
@@ -323,6 +334,7 @@ def stepAsIs (s : State) (o : OpAsIs) : State × Res :=
   | OpAsIs.blockingResume h => stepBlockingResumeAsIs s h
   | OpAsIs.closeLateBegin => stepCloseLateBegin s
   | OpAsIs.closeLateEnd => stepCloseLateEnd s
+  | OpAsIs.subCopyAsIs sid h => stepSubCopyAsIs s sid h
 
 def runAsIs (s : State) (ops : List OpAsIs) : State := ops.foldl (fun s op => (stepAsIs s op).1) s
 
